@@ -244,14 +244,34 @@ def coq_eval(preamble, runner, terms, workdir, tag, timeout=900, shard=250):
             f.write(f"Eval vm_compute in (map {runner} cases).\n")
         files.append(path)
 
+    def mem_available_gb():
+        try:
+            for line in open("/proc/meminfo"):
+                if line.startswith("MemAvailable:"):
+                    return int(line.split()[1]) / 1e6
+        except OSError:
+            pass
+        return 1e9
+
     def one(path):
         # `ulimit -s unlimited`: vm_compute on long byte lists recurses deeply
         cmd = (f"ulimit -s unlimited 2>/dev/null; coqc -q -noglob -Q theories WP -Q gen WPGen "
                f"-w -all {path} -o {path}o")
-        rc, out = sh(["bash", "-c", cmd], timeout, cwd=COQ)
-        if rc != 0:
-            raise RuntimeError(f"coqc failed on {path}:\n{out[-3000:]}")
-        return parse_coq_value(out)
+        out = ""
+        for attempt in range(3):
+            # do not start another evaluation while memory is short (a shard of production-size cases can need GBs);
+            # a process killed by the kernel's OOM killer prints nothing: it is retried, alone in its thread, later
+            waited = 0
+            while mem_available_gb() < 10 and waited < 900:
+                time.sleep(3)
+                waited += 3
+            rc, out = sh(["bash", "-c", cmd], timeout, cwd=COQ)
+            if rc == 0:
+                return parse_coq_value(out)
+            if "Error" in out or "timeout" in out:
+                break
+            time.sleep(20 * (attempt + 1))
+        raise RuntimeError(f"coqc failed on {path}:\n{out[-3000:]}")
 
     with ThreadPoolExecutor(max_workers=NPROC) as ex:
         parts = list(ex.map(one, files))
